@@ -49,8 +49,13 @@ def render(model):
     sheets = {}
     ghost = int(model.get('ghost') or 0)
 
-    def pad(rows, width):
+    blank = bool(model.get('blank_rows'))
+
+    def pad(rows, width, first_data=5):
         out = [list(r) + [None] * (width - len(r)) for r in rows]
+        if blank and len(out) > first_data + 1:
+            # an empty line left between two blocks of data rows (rows whose first cell is empty are skipped by the readers)
+            out.insert(first_data + 1, [None] * width)
         out += [[None] * width for _ in range(ghost)]
         return out
 
@@ -521,7 +526,8 @@ def valid_model(draw, services=True, n_range=(2, 7)):
             row['path'] = f'{hop[0]} | {hop[1]}'
     return {'sites': sites, 'links': links, 'eqpt': eqpt, 'eqpt_cols': draw(st.sampled_from([14, 14, 12])),
             'roadms': roadms, 'service': service, 'bidir': draw(st.booleans()),
-            'ghost': draw(st.sampled_from([0, 0, 1, 3])), 'header_edit': None, 'expect': 'valid'}
+            'ghost': draw(st.sampled_from([0, 0, 1, 3])), 'header_edit': None, 'expect': 'valid',
+            'blank_rows': draw(st.integers(0, 3)) == 0}
 
 
 @st.composite
@@ -565,6 +571,11 @@ def service_rows(draw, roadm_sites, loose_values=(None, 'yes', 'Yes', 'YES', 'no
                 row['unusable'] = bad
             row['path'] = ' | '.join(typed)
         rows.append(row)
+    if n >= 4 and draw(st.integers(0, 2)) == 0:
+        # a chain of pairwise entries: 0 disjoint from 1, 2 disjoint from 3, then 1 disjoint from 2 (every entry is a group of
+        # its own, although each of the ids of the last one already appears in an earlier group)
+        rows[0]['disjoint'], rows[2]['disjoint'], rows[1]['disjoint'] = str(ids[1]), str(ids[3]), str(ids[2])
+        rows[3]['disjoint'] = None
     return rows
 
 
